@@ -12,8 +12,10 @@ import time
 
 ROOT = "/verif"
 SPEC = ROOT + "/spec"
-WORK = ROOT + "/work"
-HARNESS = ROOT + "/harness"
+# (development only: VERIF_HARNESS / VERIF_WORK let a second copy of the harness, built against a scratch
+# worktree, run side by side; the registered commands never set them)
+WORK = os.environ.get("VERIF_WORK", ROOT + "/work")
+HARNESS = os.environ.get("VERIF_HARNESS", ROOT + "/harness")
 BIN = HARNESS + "/target/release/vharness"
 CP = "/opt/veriftools/tla/tla2tools.jar:/opt/veriftools/tla/CommunityModules-deps.jar"
 MAX_JVMS = 8
